@@ -125,3 +125,17 @@ Proof.
   induction ts as [|[|[s n]] ts IH]; intros H; simpl; auto.
   rewrite IH; auto. intros t Ht. apply H. right; auto.
 Qed.
+
+(* section_name: the default name of an unnamed entry is its POSITION in the section (the (k+1)-th entry is called
+   "k+1"), whatever the number of named entries before it *)
+Lemma name_entries_position {A} numname v : forall (l : list (option nat * A)) k j g a,
+  nth_error l j = Some (g, a) -> nth_error (name_entries numname v k l) j = Some (entry_name numname v (k + j) g, a).
+Proof.
+  induction l as [|[g0 a0] l IH]; intros k j g a H; destruct j as [|j]; simpl in *; try discriminate.
+  - inversion H; subst. rewrite Nat.add_0_r. reflexivity.
+  - rewrite (IH (S k) j g a H). f_equal. f_equal. f_equal. lia.
+Qed.
+
+Lemma unnamed_entry_named_by_position {A} numname (l : list (option nat * A)) j a :
+  nth_error l j = Some (None, a) -> nth_error (name_entries numname V11 0 l) j = Some (numname j, a).
+Proof. intros H. rewrite (name_entries_position numname V11 l 0 j None a H). reflexivity. Qed.
